@@ -569,6 +569,15 @@ func wireEdgeLabel(ifi *ssa.If, idx int) string {
 				return fmt.Sprintf("case:%d", k)
 			}
 		}
+		if call, ok := cond.X.(*ssa.Call); ok && call.Call.StaticCallee() != nil && call.Call.StaticCallee().Name() == "fixedWidth" && len(call.Call.Args) == 1 {
+			if k, ok := core.ConstInt(cond.Y); ok {
+				s := fmt.Sprintf("fw(%s)%s%d", core.Sym(call.Call.Args[0]), cond.Op, k)
+				if idx == 1 {
+					s = "!" + s
+				}
+				return s
+			}
+		}
 	case *ssa.Parameter:
 		if idx == 0 {
 			return "if(" + core.Sym(cond) + ")"
